@@ -145,6 +145,21 @@ func (m *Machine) externalUncached(fn *ssa.Function) externalFn {
 			return native(m, caller, fn, args)
 		}
 	}
+	switch name {
+	case "strings.TrimRight", "strings.TrimLeft", "strings.Trim":
+		native := bridgeCall(name, nativeBridge[name])
+		left, right := name != "strings.TrimRight", name != "strings.TrimLeft"
+		return func(m *Machine, caller *frame, fn *ssa.Function, args []value) value {
+			if sv, ok := args[0].(strV); ok && sv.sym != nil {
+				if cs, ok2 := args[1].(strV); ok2 {
+					if cut, conc := cs.Concrete(); conc {
+						return m.trimCutsetSym(sv, cut, left, right)
+					}
+				}
+			}
+			return native(m, caller, fn, args)
+		}
+	}
 	if nf, ok := nativeBridge[name]; ok {
 		return bridgeCall(name, nf)
 	}
@@ -1052,8 +1067,37 @@ func (m *Machine) goArg(c *frame, v value, taint *bool) interface{} {
 			}
 			return parts
 		}
+	case reflVal:
+		// fmt prints the concrete value a reflect.Value holds
+		if x.t == nil {
+			return "<invalid reflect.Value>"
+		}
+		return m.goArg(c, ifaceV{t: x.t, v: x.get()}, taint)
 	case structV:
 		st, _ := iv.t.Underlying().(*types.Struct)
+		if st != nil && m.fmtExact && st.NumFields() > 0 {
+			// a concrete structure with exported members only, under a verb that does not print type names:
+			// rendered by the real fmt through a structure of the same member names and kinds
+			var fields []reflect.StructField
+			var vals []reflect.Value
+			ok, sub := true, false
+			for i := 0; i < st.NumFields() && ok; i++ {
+				g := m.goArg(c, ifaceV{t: st.Field(i).Type(), v: x[i]}, &sub)
+				if !st.Field(i).Exported() || g == nil || sub {
+					ok = false
+					break
+				}
+				fields = append(fields, reflect.StructField{Name: st.Field(i).Name(), Type: reflect.TypeOf(g)})
+				vals = append(vals, reflect.ValueOf(g))
+			}
+			if ok {
+				rv := reflect.New(reflect.StructOf(fields)).Elem()
+				for i, v := range vals {
+					rv.Field(i).Set(v)
+				}
+				return rv.Interface()
+			}
+		}
 		if st != nil {
 			mp := map[string]interface{}{}
 			for i := 0; i < st.NumFields(); i++ {
@@ -1134,6 +1178,8 @@ func (m *Machine) sprintf(c *frame, format strV, args value) value {
 	f = strings.ReplaceAll(f, "%w", "%v")
 	sl, _ := args.([]value)
 	taint := format.taint
+	m.fmtExact = !strings.Contains(f, "%T") && !strings.Contains(f, "#v")
+	defer func() { m.fmtExact = false }()
 	gargs := make([]interface{}, len(sl))
 	for i, a := range sl {
 		gargs[i] = m.goArg(c, a, &taint)
@@ -1144,6 +1190,8 @@ func (m *Machine) sprintf(c *frame, format strV, args value) value {
 func (m *Machine) sprint(c *frame, args value, ln bool) value {
 	sl, _ := args.([]value)
 	taint := false
+	m.fmtExact = true
+	defer func() { m.fmtExact = false }()
 	gargs := make([]interface{}, len(sl))
 	for i, a := range sl {
 		gargs[i] = m.goArg(c, a, &taint)
@@ -1356,6 +1404,36 @@ func timeExt(m *Machine, v value) *Term {
 // two ends are case-split: ASCII white space (\t \n \v \f \r and space) is trimmed, any other ASCII
 // byte stops the trimming; a byte >= 0x80 at a trimming boundary would need rune decoding (U+0085,
 // U+00A0, U+2000...) and is cut as outside the bound.
+// trimCutsetSym: strings.Trim/TrimLeft/TrimRight of a string with symbolic bytes by a concrete ASCII cutset:
+// the bytes at the trimmed ends are case-split on membership. A non-ASCII cutset, or a non-ASCII byte at a
+// trimming boundary (rune decoding), is cut as outside the bound.
+func (m *Machine) trimCutsetSym(sv strV, cut string, left, right bool) value {
+	for i := 0; i < len(cut); i++ {
+		if cut[i] >= 0x80 {
+			m.outside("strings.Trim*: non-ASCII cutset")
+		}
+	}
+	bs := sv.Bytes()
+	inCut := func(b *Term) bool {
+		if m.branch(tCmp("bvuge", b, mkConst(8, 0x80))) {
+			m.outside("strings.Trim*: non-ASCII byte at a trimming boundary")
+		}
+		c := tFalse
+		for i := 0; i < len(cut); i++ {
+			c = tOr(c, tEq(b, mkConst(8, uint64(cut[i]))))
+		}
+		return m.branch(c)
+	}
+	lo, hi := 0, len(bs)
+	for left && lo < hi && inCut(bs[lo]) {
+		lo++
+	}
+	for right && hi > lo && inCut(bs[hi-1]) {
+		hi--
+	}
+	return strFromTerms(append([]*Term(nil), bs[lo:hi]...), sv.taint)
+}
+
 func (m *Machine) trimSpaceSym(sv strV) value {
 	bs := sv.Bytes()
 	isSpace := func(b *Term) bool {
